@@ -117,6 +117,22 @@ func setup(base string, n int64, scenario string, size int, seed int64, srcfile 
 			return nil, err
 		}
 		e.unrelated[aid("sharing")] = p // shares the target's output file
+	case "repaired-same-size":
+		// an output that was damaged at its full size and has since been repaired by a complete Put of
+		// the same content - all in this process, which has therefore seen the file in both states
+		if err := c.PutBytes(aid("victim"), p); err != nil {
+			return nil, err
+		}
+		if len(p) > 0 {
+			bad := append([]byte{}, p...)
+			bad[len(bad)/2] ^= 0x41
+			os.WriteFile(outPath(dir, h), bad, 0o666)
+		}
+		if err := c.PutBytes(aid("repairer"), p); err != nil {
+			return nil, err
+		}
+		e.unrelated[aid("victim")] = p
+		e.unrelated[aid("repairer")] = p
 	case "stale-index":
 		// an index entry that outlived its (trimmed) output file: a legitimate cache state
 		if err := c.PutBytes(aid("stale"), p); err != nil {
@@ -220,7 +236,7 @@ func verify(e *env, fault string, putOK bool, report func(kind, detail string)) 
 	}
 	var names []string
 	byName := map[string]cache.ActionID{}
-	for _, n := range []string{"u1", "u2", "sharing"} {
+	for _, n := range []string{"u1", "u2", "sharing", "victim", "repairer"} {
 		if _, has := e.unrelated[aid(n)]; has {
 			names = append(names, n)
 			byName[n] = aid(n)
@@ -527,7 +543,7 @@ func (h *hostile) Read(p []byte) (int, error) {
 
 func sourceFaults(base string, rng *rand.Rand, n int) {
 	for i := 0; i < n; i++ {
-		scenario := []string{"new", "overwrite", "restore-same", "stale-index"}[rng.Intn(4)]
+		scenario := []string{"new", "overwrite", "restore-same", "stale-index", "repaired-same-size"}[rng.Intn(5)]
 		size := []int{1, 2, 100, 4096, 32767, 32768, 32769, 70000}[rng.Intn(8)]
 		seed := rng.Int63n(1000)
 		e, err := setup(base, atomic.AddInt64(&caseCounter, 1), scenario, size, seed, false)
@@ -847,7 +863,7 @@ func main() {
 	vlib.Main("C12", "fault_enumeration", 15*time.Minute, func(r *vlib.Run) {
 		run = r
 		childBin = filepath.Join(os.Getenv("VERIF_BUILD"), "c12child")
-		r.Rule("configurations = scenario (new, overwrite, restore-same with a sharing entry, stale index entry, pre-damaged output: wrong bytes / shorter / longer) x payload size (0,1,2,4096,32767,32768,32769,160KiB) x source (memory / real file). For each: a dry run under strace lists every file syscall Put performs between two markers; then one run per syscall with SIGKILL at its entry (= halt between operations) and one per (syscall, errno). Plus RLIMIT_FSIZE short writes at 10 offsets, the index entry's write cut short after each of its 176 byte offsets followed by a halt (overwrites towards a larger and a smaller output at every offset, other starting states sampled), in-process hostile ReadSeekers (error / early EOF / flipped byte / failing Seek / shorter / longer second pass; half of them on a cache whose files were last touched 61 min / 3 h / 50 h ago), and SIGKILL of a looping writer at random times. Non-trivial/distinct = distinct (configuration, fault kind, syscall index) whose injection was confirmed, from the injected run's own trace, to have landed on the intended syscall inside Put.")
+		r.Rule("configurations = scenario (new, overwrite, restore-same with a sharing entry, stale index entry, pre-damaged output: wrong bytes / shorter / longer) x payload size (0,1,2,4096,32767,32768,32769,160KiB) x source (memory / real file). For each: a dry run under strace lists every file syscall Put performs between two markers; then one run per syscall with SIGKILL at its entry (= halt between operations) and one per (syscall, errno). Plus RLIMIT_FSIZE short writes at 10 offsets, the index entry's write cut short after each of its 176 byte offsets followed by a halt (overwrites towards a larger and a smaller output at every offset, other starting states sampled), in-process hostile ReadSeekers (error / early EOF / flipped byte / failing Seek / shorter / longer second pass; a fifth of them on an output that this process saw damaged and then repaired; half of them on a cache whose files were last touched 61 min / 3 h / 50 h ago), and SIGKILL of a looping writer at random times. Non-trivial/distinct = distinct (configuration, fault kind, syscall index) whose injection was confirmed, from the injected run's own trace, to have landed on the intended syscall inside Put.")
 		r.Assume("crash = the process stops (SIGKILL); page-cache / power loss is out of scope (the code does not fsync)")
 		r.Assume("the cache keeps no in-memory state, so opening the directory afresh in the harness process is equivalent to a fresh verifier process")
 		if _, err := exec.LookPath("strace"); err != nil {
